@@ -397,6 +397,15 @@ def case_strategy(draw, max_ops: int = 30, steer: Optional[str] = None, **kw):
         _, meta = gen_scenario.build(spec)
         extras = acl_extra_actions(meta)
         head = draw(acl_phrase(spec, extras))
+        devs = list(meta["routers"]) + list(meta["firewalls"])
+        if head and devs and draw(st.booleans()):
+            # ... and then the device that now holds rules in observed positions leaves ON (SHUTTING_DOWN for a few steps,
+            # OFF, sometimes BOOTING again): every list of a device that is not on reads as empty rows
+            dev = draw(st.sampled_from(devs))
+            head += [["act", "node-shutdown", {"node_name": dev}]] + idles(draw(st.integers(1, 5)))
+            if draw(st.booleans()):
+                head += [["act", "node-startup", {"node_name": dev}]] + idles(draw(st.integers(1, 4)))
+            spec["max_len"] = max(spec["max_len"], len(head) + 4)
         tail = draw(ops_strategy(max(max_ops - len(head), 1), min_ops=0 if head else 1))
         case = {"src": "gen", "spec": spec, "ops": head + tail}
         if extras:
